@@ -27,7 +27,7 @@ REGISTRY = {
     "C06": ("mon.worker_checks", "C06"),
     "C07": ("mon.worker_checks", "C07"),
     "C08": ("mon.args_labels", "C08"),
-    "C09": ("mon.args_labels", "C09"),
+    "C09": ("mon.labels_check", "C09"),
     "C10": ("mon.worker_checks", "C10"),
     "C11": ("mon.retry_check", "C11"),
     "C12": ("mon.worker_checks", "C12"),
